@@ -72,6 +72,7 @@ def errName : Err → String
   | .divZero => "divZero" | .negExp => "negExp" | .unsupUnary => "unsupUnary"
   | .unsupBinary => "unsupBinary" | .readOnly => "readOnly" | .badNumber => "badNumber"
   | .syntaxErr => "syntaxErr" | .recursion => "recursion" | .outOfDomain => "outOfDomain"
+  | .fuel => "fuel"
 
 def showRes : Res → String
   | .ok v => "ok " ++ toString v
@@ -130,6 +131,8 @@ def precTable : String :=
       "L:" ++ showLevel 11, "L:" ++ showLevel 12, "power:pow", "unary:not,bitNeg,plus,minus",
       "value" ]
 
+def specFuel : Nat := 1000000
+
 def handle (args : List String) : String :=
   match args with
   | ["atoi", h] =>
@@ -155,6 +158,27 @@ def handle (args : List String) : String :=
       | some (e, []) =>
         let (r, env') := evalArith env e
         showRes r ++ " ; " ++ showEnv env' names
+      | _ => "bad-op"
+    | none => "bad-op"
+  | "speceval" :: rest =>
+    match decodeEnv rest with
+    | some (env, names, ex) =>
+      match decodeExpr (ex.length + 1) ex with
+      | some (e, []) =>
+        let (r, env') := specEval specFuel bashMaxDepth env e
+        showRes r ++ " ; " ++ showEnv env' names
+      | _ => "bad-op"
+    | none => "bad-op"
+  | "specstatus" :: kind :: rest =>
+    match decodeEnv rest with
+    | some (env, names, ex) =>
+      match decodeExpr (ex.length + 1) ex with
+      | some (e, []) =>
+        let (st, env') :=
+          if kind == "cmd" then specArithCmdStatus specFuel env e
+          else if kind == "exp" then specExpansionStatus specFuel env e
+          else specLetStatus specFuel env [e]
+        toString st ++ " ; " ++ showEnv env' names
       | _ => "bad-op"
     | none => "bad-op"
   | "status" :: kind :: rest =>
